@@ -2,6 +2,6 @@ SPECIFICATION GSpec
 CONSTANTS
   Impl = "clone"
   Inputs <- ModelInputs
-  MaxSteps = 4
-INVARIANTS Emit DependsOnArgOnly FreshAcrossCalls ResultsAreNotInputs InputsNeverWritten
+  MaxSteps = 3
+INVARIANTS Emit DependsOnArgOnly ErrTextOfThisArg FreshAcrossCalls ResultsAreNew
 CHECK_DEADLOCK FALSE
